@@ -566,6 +566,10 @@ def check(prog, run):
                 roots_.append(m.qual)
     reach_ = sorted(q for q in prog.reachable(roots_) if q in prog.functions and not q.startswith("pyoma2.functions.plot") and ".setter" not in q)
     shared_state_rule(prog, run, "R-stateless", reach_, "a later call (on this or on another setup) is carried out with the options of an earlier one")
+    run.rule("R-per-dataset", "every dataset is processed with the options of the call: no iteration over the datasets takes options OUT of a dictionary that is one object for "
+             "all iterations (pop with a fixed key / popitem / clear, itself or in a helper it is handed to)", 0)
+    from ..effects import consumed_in_loop_rule
+    consumed_in_loop_rule(prog.raw, run, "R-per-dataset", [q for q in reach_ if q in prog.raw.functions])
     frame_rule(prog, run)
     kwargs_rule(prog, run)
     axis_rule(prog, run)
